@@ -13,3 +13,8 @@ CLAIMS["C06"] = (
     "Generated rotation pairs/triples from all classes (incl. near-identical, antipodal, gimbal lock; thorough: all 576 cube-rotation pairs and the whole 45-degree Euler lattice) are compared with an independent matrix oracle; normals/Euler conversions are checked through the z-axis image. Held on everything explored.",
     "Trusts the harness matrix algebra (cross-checked once against scipy in oracle.self_test) and a 2e-5 degree tolerance derived from arccos conditioning.",
 )
+CLAIMS["C11"] = (
+    "property-based round trip against independent byte-level MRC2014/EM parsers and writers",
+    "Generated non-cubic arrays of four dtypes go through write/read, em2mrc/mrc2em and invert_contrast; the written bytes are parsed by the harness' own parsers (header dims, type code, x-fastest voxel order) and files written by the harness' own writers are read by cryoCAT. Held on everything explored.",
+    "Trusts the harness' MRC/EM byte layout knowledge (1024/512-byte headers); casts limited to value-preserving ones.",
+)
